@@ -125,9 +125,18 @@ static void gen_roundtrip_cfg(const std::string &tier, uint64_t seed, long idx, 
 static void gen_C01(const std::string &tier, uint64_t seed, long idx, Scn &s) {
   gen_roundtrip_cfg(tier, seed, idx, s, "C01");
   if (!is_prod() && idx % 23 == 7) s.i["fresh"] = 1;   // first operations of a pristine process
+  if (!is_prod() && idx % 16 == 11) {                  // the command-line path: -e then -d, a pristine process each
+    Rng g(Rng::mix(seed, 0xC01C, (uint64_t)idx));
+    s.i["cli"] = 1;
+    s.i["fresh"] = 0;
+    s.i["len"] = g.chance(0.3) ? std::max<long>(0, (long)CHB() * (1 + (long)g.below(8)) - (long)g.below(3) * 16 + (long)g.below(2)) : (long)g.below(9 * CHB() + 1);
+    s.i["t1"] = 1600000000 + (long)g.below(200000000);
+    s.i["ss0"] = (long)(g.next() >> 2);
+  }
 }
 
 static Verdict run_C01(const Scn &s) {
+  if (s.geti("cli", 0)) return run_C01_cli(s);
   int T = (int)s.geti("T");
   long len = s.geti("len");
   Bytes P = make_plain(len, (uint64_t)s.geti("pseed"), (int)s.geti("ptype"), CHB());
